@@ -479,10 +479,10 @@ def main_c19(tier, seed):
     for obs, failing, label in ((gets, f1, 'get'), (moves, f2, 'move')):
         spec_set = set(failing['spec'])
         for i in failing['spec']:
-            dec.report(dict(kind='sub-operations-' + label, **obs[i][1]))
+            dec.report(dict(obs[i][1], kind='sub-operations-' + label))
         for i in failing['corr']:
             if i not in spec_set:
-                dec.report(dict(kind='model-differs-' + label, theorem='correspondence', **obs[i][1]), no_input=True)
+                dec.report(dict(obs[i][1], kind='model-differs-' + label, theorem='correspondence'), no_input=True)
     for name, out in b1 + b2:
         dec.report(dict(kind='case-file-broken', file=name, detail=out), no_input=True)
     run.keep = bool(dec.violations)
@@ -502,10 +502,10 @@ def finish(dec, prop, obs, case_type, checks, rule, key, kind):
     cov['samples'] = [h for _t, h in obs[2:4]]
     spec_set = set(failing['spec'])
     for i in failing['spec']:
-        dec.report(dict(kind=kind, **obs[i][1]))
+        dec.report(dict(obs[i][1], kind=kind))
     for i in failing['corr']:
         if i not in spec_set:
-            dec.report(dict(kind='model-differs', theorem='correspondence', **obs[i][1]), no_input=True)
+            dec.report(dict(obs[i][1], kind='model-differs', theorem='correspondence'), no_input=True)
     for name, out in broken:
         dec.report(dict(kind='case-file-broken', file=name, detail=out), no_input=True)
     run.keep = bool(dec.violations)
